@@ -152,3 +152,20 @@ Theorem C03_executable_statement : forall ser sha sch u8 ev,
   C03.Run.classify ser sha sch u8 ev = pys "ok" <-> is_signed ser sha sch u8 ev = true.
 Proof. exact C03.Run.classify_ok. Qed.
 Print Assumptions C03_executable_statement.
+
+(* the validator pipeline (validators.get_validator, translated into Gen/Validators.v on every run: the configured functions are
+   called in order and the first refusal ends the run): an event passes it only if EVERY configured validator passes, so is_signed
+   cannot be skipped, outrun or outvoted whatever else is configured in front of it or behind it *)
+From NR Require Gen.Validators.
+Theorem C03_pipeline_runs_every_validator : forall (A : Type) (vs : list (A -> option pystr)) (x : A),
+  Gen.Validators.run_in_order vs x = None <-> forall v, In v vs -> v x = None.
+Proof.
+  intros A vs x. induction vs as [|v vs IH]; simpl.
+  - split; [intros _ v [] | reflexivity].
+  - destruct (v x) eqn:E.
+    + split; [discriminate|]. intros H. rewrite <- E. apply H. left; reflexivity.
+    + rewrite IH. split.
+      * intros H w [->|Hw]; [exact E|apply H; exact Hw].
+      * intros H w Hw. apply H. right; exact Hw.
+Qed.
+Print Assumptions C03_pipeline_runs_every_validator.
